@@ -451,8 +451,10 @@ func (tk *tokenizer) consumeUrl(pos Pos) (Token, Token) {
 badURL:
 	// http://drafts.csswg.org/csswg/css-syntax/#consume-the-remnants-of-a-bad-url0
 	for tk.pos < L {
-		if bytes.HasPrefix(tk.src[tk.pos:], []byte("\\)")) {
-			tk.pos += 2
+		if tk.src[tk.pos] == '\\' && !bytes.HasPrefix(tk.src[tk.pos:], []byte("\\\n")) {
+			// any valid escape is consumed, so that an escaped backslash does not hide the closing parenthesis
+			tk.pos += 1
+			tk.consumeEscape()
 		} else if tk.src[tk.pos] == ')' {
 			tk.pos += 1
 			break
